@@ -72,8 +72,9 @@ pub fn fn_j<'tcx>(
     let mut inst_local = J::Bool(false);
     let mut self_ty = J::Null;
     let mut kind = J::Null;
+    let mut trait_j = J::Null;
     if let Some(tr) = tcx.trait_of_assoc(d) {
-        let _ = tr;
+        trait_j = J::s(path_s(tcx, tr));
         if let Some(a0) = args.iter().next() {
             if let Some(t) = a0.as_type() {
                 self_ty = J::s(ty_s(t));
@@ -107,6 +108,7 @@ pub fn fn_j<'tcx>(
         "def": J::s(def),
         "gargs": J::Arr(gargs),
         "self_ty": self_ty,
+        "trait": trait_j,
         "inst": inst_path,
         "inst_full": inst_full,
         "inst_local": inst_local,
